@@ -61,6 +61,7 @@ func TestC48(t *testing.T) {
 	}
 	c48ErrorResponses(t, c)
 	c48ExhaustiveMutations(t, c, pool, bases)
+	c48OpenSSLDifferential(t, c, pool)
 }
 
 // c48IssuerHashes returns the CertID hashes CreateResponse/CreateRequest are
@@ -195,7 +196,7 @@ func c48PropCreateParse(rt *rapid.T, c *ev.Collector, pool *ref.OCSPPool) {
 		if err == nil {
 			rt.Fatalf("VF-VIOLATION: property=C48 CreateResponse accepted an unusable template (%s, IssuerHash %v, SignatureAlgorithm %v)", algCls, tmpl.IssuerHash, tmpl.SignatureAlgorithm)
 		}
-		c.Case(false, "", "A:create-refused", algCls)
+		c.Case(false, "", "A:create-refused", "A:"+algCls)
 		return
 	}
 	if err != nil {
